@@ -9,7 +9,7 @@ this file), dense numpy rank, metamorphic pairs (series vs event times, linear c
 import warnings
 from fractions import Fraction as Fr
 import numpy as np
-from common import Case, Failure, f2x, x2f, flist, ilist, parse_flist, call, close_vec
+from common import Case, Failure, f2x, x2f, flist, ilist, parse_flist, call, close_vec, err_kind
 
 PID = 'C19'
 LEAN_TARGETS = ['Nitime.Props.C19']
@@ -80,43 +80,157 @@ def run_impl(sp):
                 return 'non-integer-entries'
             return 'ok %d %d %s' % (m.shape[0], m.shape[1], ilist(m.reshape(-1)))
         return call(f)
+    if sp['kind'] == 'seq':
+        return run_seq_impl(sp)
+
+    def f():
+        with warnings.catch_warnings():
+            warnings.simplefilter('ignore')
+            a, _, _ = build(sp)
+            return canon_read(sp['what'], read(a, sp['what']))
+    return call(f)
+
+
+def build(sp):
+    """the real analyzer for a spec, with the input objects (kept for the mutation snapshots)"""
+    ts, ERA, tsu = nt()
     nch, N = sp['nch'], sp['N']
     data = np.array(sp['data'], dtype=float)
     data = data.reshape((nch, N)) if nch else data
     T = ts.TimeSeries(data, sampling_interval=sp['si'], time_unit=sp['unit'])
-    if sp['kind'] == 'series':
+    if sp['kind'] == 'series' or sp.get('base') == 'series':
         ev = np.array(sp['ev'], dtype=float if sp.get('evfloat') else int)
         ev = ev.reshape((sp['evch'], N)) if sp['evch'] else ev
         E = ts.TimeSeries(ev, sampling_interval=sp['si'], time_unit=sp['unit'])
     else:
         E = ts.Events(ts.TimeArray(np.array(sp['times'], dtype=np.int64), time_unit='ps'))
+    a = ERA(T, E, sp['L'], zscore=bool(sp.get('zs')), correct_baseline=bool(sp['cb']), offset=sp['off'])
+    return a, T, E
 
-    def f():
-        with warnings.catch_warnings():
-            warnings.simplefilter('ignore')
-            a = ERA(T, E, sp['L'], zscore=bool(sp.get('zs')), correct_baseline=bool(sp['cb']), offset=sp['off'])
-            w = sp['what']
-            if w == 'fir':
-                return canon_ts(a.FIR)
-            if w == 'eta':
-                return canon_ts(a.eta)
-            if w == 'ets':
-                return canon_ts(a.ets)
-            if w == 'etdata':
-                d = a.et_data
-                blocks, vals, t0s, sis = [], [], set(), set()
-                for row in d:
-                    for x in row:
-                        arr = canon_arr(x.data)
-                        blocks.append(arr.shape[0])
-                        vals += list(arr.reshape(-1))
-                        t0s.add(int(np.asarray(x.t0)))
-                        sis.add(int(np.asarray(x.sampling_interval)))
-                if len(t0s) != 1 or len(sis) != 1:
-                    return 'inconsistent-axes'
-                return 'ok t0=%d si=%d blocks=%s data=%s' % (t0s.pop(), sis.pop(), ilist(blocks), flist(vals))
-            raise KeyError(w)
-    return call(f)
+
+def read(a, w):
+    return {'fir': lambda: a.FIR, 'eta': lambda: a.eta, 'ets': lambda: a.ets, 'etdata': lambda: a.et_data}[w]()
+
+
+def canon_read(w, obj):
+    if w != 'etdata':
+        return canon_ts(obj)
+    blocks, vals, t0s, sis = [], [], set(), set()
+    for row in obj:
+        for x in row:
+            arr = canon_arr(x.data)
+            blocks.append(arr.shape[0])
+            vals += list(arr.reshape(-1))
+            t0s.add(int(np.asarray(x.t0)))
+            sis.add(int(np.asarray(x.sampling_interval)))
+    if len(t0s) != 1 or len(sis) != 1:
+        return 'inconsistent-axes'
+    return 'ok t0=%d si=%d blocks=%s data=%s' % (t0s.pop(), sis.pop(), ilist(blocks), flist(vals))
+
+
+# ------------------------------------------------------------------ read sequences on ONE analyzer object
+def _bytes(x):
+    """bytes of everything array-like reachable from an input / stored attribute"""
+    ts = nt()[0]
+    if isinstance(x, (list, tuple)):
+        return b'|'.join(_bytes(y) for y in x)
+    if isinstance(x, ts.TimeSeries):
+        return np.ascontiguousarray(x.data).tobytes()
+    if isinstance(x, ts.Events):
+        return np.ascontiguousarray(np.asarray(x.time)).tobytes()
+    return np.ascontiguousarray(np.asarray(x)).tobytes()
+
+
+def snapshot(a, T, E):
+    return {'input-series': _bytes(T), 'input-events': _bytes(E), 'stored-data': _bytes(a.data), 'stored-events': _bytes(a.events)}
+
+
+def run_sequence(sp, order):
+    """read the outputs in `order` on one analyzer; returns per read: canonical result, which snapshots
+    changed across the read; and afterwards the canonical form of every EARLIER returned object again"""
+    with warnings.catch_warnings():
+        warnings.simplefilter('ignore')
+        a, T, E = build(sp)
+        firsts, objs, mutated = [], [], []
+        for w in order:
+            before = snapshot(a, T, E)
+            try:
+                o = read(a, w)
+                c = canon_read(w, o)
+            except Exception as e:  # noqa
+                o, c = None, 'err ' + err_kind(e)
+            after = snapshot(a, T, E)
+            mutated.append(sorted(k for k in before if before[k] != after[k]))
+            firsts.append(c)
+            objs.append(o)
+        again = [canon_read(w, o) if o is not None else c for w, o, c in zip(order, objs, firsts)]
+    return firsts, mutated, again
+
+
+def run_seq_impl(sp):
+    firsts, _, _ = run_sequence(sp, sp['order'])
+    return ' ;; '.join(firsts)
+
+
+def same_out(w, x, y):
+    if x == y:
+        return True
+    a, b = parse_out(x), parse_out(y)
+    if a is None or b is None or a[0] != b[0]:
+        return False
+    return close_nan(a[1], b[1], 1e-12)
+
+
+def sequence_failures(sp, order):
+    """property-level: any read order on one object gives what a fresh analyzer gives for that output alone
+    (and the planted truth), never changes the inputs / stored arrays, and never changes results handed out
+    earlier.  Returns every kind of failure seen (one per key)."""
+    fresh = {}
+    for w in order:
+        q = dict(sp)
+        q.update(kind=sp.get('base', sp['kind']), what=w)
+        fresh[w] = run_impl(q)
+    firsts, mutated, again = run_sequence(sp, order)
+    rp = {'spec': sp, 'order': list(order), 'seq': True}
+    out = {}
+
+    def add(key, what):
+        out.setdefault(key, Failure(key, what, dict(rp)))
+    for i, w in enumerate(order):
+        if mutated[i]:
+            add('sequence/%s/input-mutated' % w, 'reading %s (order %s, offset %d) changed %s' % (
+                w, '>'.join(order), sp['off'], ','.join(mutated[i])))
+    for i, w in enumerate(order):
+        if not same_out(w, firsts[i], fresh[w]):
+            first = 'multi'
+            for v in order[:i]:
+                f2, _, _ = run_sequence(sp, [v, w])
+                if not same_out(w, f2[1], fresh[w]):
+                    first = v
+                    break
+            add('sequence/%s-then-%s/value' % (first, w), '%s read after %s on the same analyzer (offset %d) differs from a fresh analyzer: %s vs %s' % (
+                w, '>'.join(order[:i]), sp['off'], firsts[i][:120], fresh[w][:120]))
+    for i, w in enumerate(order):
+        q = dict(sp)
+        q.update(kind=sp.get('base', sp['kind']), what=w)
+        q.pop('order', None)
+        f = check_case(Case('', firsts[i], 'seq', meta=q))
+        if f is not None and not f.key.startswith('fir/negative-code'):
+            add('sequence/%s/truth/%s' % (w, f.key), f.what)
+    for i, w in enumerate(order):
+        if again[i] != firsts[i]:
+            add('sequence/%s/earlier-result-changed' % w, 'the %s result handed out earlier changed after reading %s' % (
+                w, '>'.join(order[i + 1:])))
+    return list(out.values())
+
+
+def sequence_check(sp, order, key=None):
+    fs = sequence_failures(sp, order)
+    if key is not None:
+        same = [f for f in fs if f.key == key]
+        if same:
+            return same[0]
+    return fs[0] if fs else None
 
 
 def line_of(sp):
@@ -126,6 +240,11 @@ def line_of(sp):
         codes = my_types(sp['ev'])
         return 'C19 planted %d %d %s %s %s' % (sp['off'], sp['L'], ilist(sp['ev']), ilist(codes),
                                                 flist([v for c in codes for v in sp['resp'][0][str(c)]]))
+    if sp['kind'] == 'seq':
+        evs = sp['ev'] if sp['base'] == 'series' else sp['times']
+        return 'C19 seq %s %s seq %d %d %d %d %d %d %d %s %s' % (
+            ','.join(sp['order']), sp['base'], sp['off'], sp['L'], 1 if sp['cb'] else 0, si_ps(sp['si'], sp['unit']),
+            sp['nch'], sp['N'], sp.get('evch', 0), ilist(evs), flist(sp['data']))
     evs = sp['ev'] if sp['kind'] == 'series' else sp['times']
     return 'C19 %s %s %d %d %d %d %d %d %d %s %s' % (
         sp['kind'], sp['what'], sp['off'], sp['L'], 1 if sp['cb'] else 0, si_ps(sp['si'], sp['unit']),
@@ -149,6 +268,20 @@ def close_nan(a, b, rtol):
     fa = [x for x in a if x == x]
     fb = [y for y in b if y == y]
     return close_vec(fa, fb, rtol=rtol, atol=1e-300)
+
+
+def make_cmp_seq(sp):
+    def cmp(impl, model):
+        xs, ys = impl.split(' ;; '), model.split(' ;; ')
+        if len(xs) != len(ys) or len(xs) != len(sp['order']):
+            return False
+        for w, x, y in zip(sp['order'], xs, ys):
+            q = dict(sp)
+            q['what'] = w
+            if not make_cmp(q)(x, y):
+                return False
+        return True
+    return cmp
 
 
 def make_cmp(sp):
@@ -178,6 +311,8 @@ def make_cmp(sp):
 def mk_case(sp):
     if sp['kind'] in ('series', 'events') and sp['what'] == 'fir' and 'rank_deficient' not in sp:
         sp['rank_deficient'] = not full_rank(sp)
+    if sp['kind'] == 'seq':
+        return Case(line_of(sp), run_impl(sp), 'seq/' + sp['base'], cmp=make_cmp_seq(sp), meta=sp, nontrivial=True)
     clause = sp['kind'] + '/' + sp.get('what', 'matrix')
     nontriv = any(v != 0 for v in sp.get('data', [1])) and (len(sp.get('times', [])) > 0 or any(sp.get('ev', [])))
     return Case(line_of(sp), run_impl(sp), clause, cmp=make_cmp(sp), meta=sp, nontrivial=nontriv)
@@ -251,12 +386,12 @@ def gen_placement(rng, N, L, off, codes, separated, per_type_min=1):
     return ev
 
 
-def gen_series(rng, tier, what, big=False):
+def gen_series(rng, tier, what, big=False, positive=False, off=None):
     L = rng.randint(2, 8) if not big else rng.randint(9, 32)
     codes = rng.sample(CODES, rng.randint(1, 3))
-    if rng.random() < 0.4:
+    if rng.random() < 0.4 or positive:
         codes = list(dict.fromkeys(abs(c) for c in codes))
-    off = rng.choice([0, 0, 0, 1, 2, 3])
+    off = rng.choice([0, 0, 0, 1, 2, 3]) if off is None else off
     nch = rng.choice([0, 0, 1, 2, 3])
     C = max(nch, 1)
     evch = nch if (nch and rng.random() < 0.5) else 0
@@ -406,11 +541,38 @@ def fixed_specs():
     return out
 
 
+def seq_specs(rng, tier):
+    """read sequences on ONE analyzer object: every permutation of the applicable getters (series input:
+    FIR, eta, ets, et_data; Events input: eta, ets), offsets 0 and != 0, separated planted designs with
+    positive codes (so that every getter has a planted truth and FIR is full rank)"""
+    import itertools
+    out = []
+    offs = [1, 0, 2] if tier == 'quick' else [1, 0, 2, 3, 1, 2, 0, 3, 1, 2]
+    for o in offs:
+        base = gen_series(rng, tier, 'ets', positive=True, off=o)
+        base['zs'] = False
+        base['cb'] = (len(out) == 0) or rng.random() < 0.4
+        for order in itertools.permutations(['fir', 'eta', 'ets', 'etdata']):
+            q = dict(base)
+            q.update(kind='seq', base='series', order=list(order), what='seq')
+            out.append(q)
+    for i in range(3 if tier == 'quick' else 12):
+        base = gen_events(rng, tier, 'eta')
+        while base['off'] == 0 and i > 0:
+            base = gen_events(rng, tier, 'eta')
+        for order in (['eta', 'ets'], ['ets', 'eta']):
+            q = dict(base)
+            q.update(kind='seq', base='events', order=order, what='seq')
+            out.append(q)
+    return out
+
+
 def gen_specs(rng, tier):
     n = 120 if tier == 'quick' else 1500
     specs = list(fixed_specs())
     for i in range(4 if tier == 'quick' else 40):
         specs.append(gen_many_events(rng, positive=(i % 2 == 0)))
+    specs += seq_specs(rng, tier)
     for i in range(n):
         for what in ('fir', 'eta', 'ets', 'etdata'):
             sp = gen_series(rng, tier, what, big=(tier == 'thorough' and i % 10 == 0) or (tier == 'quick' and i % 30 == 29))
@@ -479,6 +641,11 @@ def check_case(c):
         return check_design(c)
     if sp['kind'] == 'planted':
         return None
+    if sp['kind'] == 'seq':
+        f = sequence_check(sp, sp['order'])
+        if f:
+            f.case = c
+        return f
     w, kind = sp['what'], sp['kind']
     pre = ('fir' if w == 'fir' else w) + ('/events-input' if kind == 'events' else '')
 
@@ -647,6 +814,11 @@ def oracle(rng, tier, seed, focus, cases=None):
     for c in (cases or []):
         if c.meta:
             n += 1
+            if c.meta.get('kind') == 'seq':
+                for f in sequence_failures(c.meta, c.meta['order']):
+                    f.case = c
+                    fails.append(f)
+                continue
             f = check_case(c)
             if f:
                 fails.append(f)
@@ -674,6 +846,8 @@ def replay(d):
 def _replay(d):
     sp = dict(d['spec'])
     sp.pop('rank_deficient', None)
+    if d.get('seq'):
+        return sequence_check(sp, d['order'], d.get('key'))
     if 'lin' in d:
         return linear_check(sp, d['lin'][0], d['lin'][1])
     c = mk_case(sp)
